@@ -94,6 +94,12 @@ fn check_uri(uri: &[u8], t: &mut crate::par::Tally) {
     } else if !(got.is_empty() || (got.starts_with('/') && text.ends_with(got))) {
         t.violate("abs-path-shape", format!("get_abs_path({:?}) = {:?} is neither empty nor a /-prefixed suffix", text, got), json!({"engine": "c16uri", "uri": util::hex(uri)}));
     }
+    // the function is exact for every call, not only the first one on a fresh value: asked again
+    // (same value, then a clone, then a separately constructed Uri of the same text)
+    let again: Vec<String> = vec![r.uri().get_abs_path().to_string(), r.uri().get_abs_path().to_string(), r.uri().clone().get_abs_path().to_string(), micro_http::Request::try_from(&req, None).map(|q| { let _ = q.uri().get_abs_path(); q.uri().get_abs_path().to_string() }).unwrap_or_default()];
+    if let Some(i) = again.iter().position(|g| g != want) {
+        t.violate("abs-path-repeated-call", format!("get_abs_path({:?}) asked again (call #{}) = {:?}, expected {:?}", text, i + 2, again[i], want), json!({"engine": "c16uri", "uri": util::hex(uri)}));
+    }
 }
 
 pub fn replay(v: &serde_json::Value) -> (bool, serde_json::Value) {
